@@ -32,7 +32,7 @@ ANCHORS = [
     "acnportal.acnsim.network.current:Current.__sub__",
     "acnportal.acnsim.network.current:Current.__mul__",
 ]
-REQUIRED = ["second_networks_judged", "subset_names_given_as:set", "subset_names_given_as:keys", "currents_shared_with_a_second_network:second", "op:add_with_an_unusual_name", "op:add_without_a_name", "op:update_with_a_current_derived_from_the_registered_object", "tree:same_station_set_in_different_orders", "subset_queries_with_unsorted_or_repeated_periods", "op:accumulate_then_scale_in_place", "queries_over_thousands_of_periods", "op:add", "op:remove", "op:update", "op:update_rename", "op:register_refused", "op:register_refused_existing_id", "op:refused_add_unknown_station", "op:refused_remove_unknown_name", "op:refused_update_unknown_name", "subset_queries",
+REQUIRED = ["second_networks_judged", "op:refused_update_with_unknown_station", "subset_names_given_as:set", "subset_names_given_as:keys", "currents_shared_with_a_second_network:second", "op:add_with_an_unusual_name", "op:add_without_a_name", "op:update_with_a_current_derived_from_the_registered_object", "tree:same_station_set_in_different_orders", "subset_queries_with_unsorted_or_repeated_periods", "op:accumulate_then_scale_in_place", "queries_over_thousands_of_periods", "op:add", "op:remove", "op:update", "op:update_rename", "op:register_refused", "op:register_refused_existing_id", "op:refused_add_unknown_station", "op:refused_remove_unknown_name", "op:refused_update_unknown_name", "subset_queries",
             "tree:+", "tree:-", "tree:*left", "tree:*right", "tree:scalar_multiple_as_operand", "leaf:dict",
             "leaf:list", "leaf:str", "leaf:series", "leaf:tiny_coefficient"]
 BUDGET_S = {"quick": 200, "thorough": 2400}
@@ -227,7 +227,32 @@ def run_case(case, obs):
             # an operation the network must refuse (unknown station / unknown name): it raises and changes nothing,
             # which the model comparison below and every later operation then confirm
             from acnportal.acnsim.network import Current as _Cur
-            kind = rng.choice(["add_unknown_station", "remove_unknown_name", "update_unknown_name"])
+            kind = rng.choice(["add_unknown_station", "remove_unknown_name", "update_unknown_name", "update_with_unknown_station"])
+            if kind == "update_with_unknown_station" and not order:
+                kind = "update_unknown_name"
+            if kind == "update_with_unknown_station":
+                # an EXISTING constraint is updated with a Current that names a station the network does not have (a typo): the
+                # call raises. Whether the old constraint survives (restored) or is gone (removed before the new one was refused)
+                # is the library's choice; either way rows, limits and names of what remains stay aligned
+                nm_ = rng.choice(order)
+                log.append(["refused:update_with_unknown_station", nm_])
+                known = rng.sample(ids, rng.randint(0, min(2, len(ids))))
+                try:
+                    net.update_constraint(nm_, _Cur({**{k_: 1 for k_ in known}, "ghost-station": 1}), round(rng.uniform(5, 999), 3),
+                                          new_name=rng.choice([None, f"k{cnt}r"]))
+                    obs.violate("invalid_operation_accepted", "update_constraint with an unregistered station did not raise", ops=log[-6:])
+                    return
+                except Exception:
+                    obs.ev("op:refused_update_with_unknown_station")
+                if nm_ not in net.constraint_index:
+                    del model[nm_]
+                    order.remove(nm_)
+                    objs.pop(nm_, None)
+                    obs.ev("op:refused_update_dropped_the_old_constraint")
+                cnt += 1
+                if not check(log[-1][0]):
+                    return
+                continue
             log.append(["refused:" + kind])
             try:
                 if kind == "add_unknown_station":
